@@ -16,7 +16,8 @@ RULE = ("(source key of one of the four curves, batch of 1..6 (one case in nine:
         "exact integer nanotez: sum(fee)*1000 >= 100000 + 1000*len(forged bytes + signature) + 100*sum(gas_limit); the byte "
         "string is also decoded by the reference operation codec (fees and limits are read from the bytes, not from the JSON). "
         "Non-trivial: batch of >= 2 operations, or a tz4 (96-byte signature) source, or a counter/amount >= 2^32 that changes the "
-        "encoded size. Distinct = distinct case.")
+        "encoded size. A second tier steers single operations and pairs to the place where the fee field itself grows by a byte "
+        "(node minimum within a few mutez of 16384). Distinct = distinct case.")
 
 KINDS = ["transaction", "transaction", "transaction", "origination", "delegation", "delegation", "reveal", "register_global_constant",
          "transfer_ticket", "smart_rollup_add_messages", "smart_rollup_execute_outbox_message"]
@@ -152,7 +153,38 @@ def _prop(case, stats):
     stats.extra["margin_mutez_min"] = 0
 
 
+@st.composite
+def boundary_cases(draw):
+    """autofill() cases steered to the place where the fee field itself grows by a byte (16383 -> 16384 mutez): the group is priced
+    once to learn its size, then the simulated gas is set so that the node minimum lands within a few mutez of that boundary."""
+    case = draw(cases(["ed", "sp", "p2"], 2, big=False))
+    case["mode"] = "autofill"
+    case.pop("gas_reserve", None), case.pop("burn_reserve", None)
+    case["constants"] = {}
+    case["aim"] = {"boundary": 16384, "d": draw(st.integers(-14, 4)), "r": draw(st.integers(0, 9)), "which": draw(st.integers(0, 1))}
+    return case
+
+
+def _prop_boundary(case, stats):
+    probe = dict(case, sim=[dict(s, milligas=1_000_000, internal=[]) for s in case["sim"]])
+    probe.pop("aim")
+    fees, need, size, gas = oracle(probe)
+    n = len(case["contents"])
+    aim = case["aim"]
+    # per-content share of the node minimum: 100 + bytes + gas/10; aim the chosen content's own fee at the boundary
+    share = size // n + 100
+    g = max(200, (aim["boundary"] - share + aim["d"]) * 10 + aim["r"])
+    g = min(g, 1_040_000)
+    final = dict(probe)
+    final["sim"] = [dict(s) for s in probe["sim"]]
+    final["sim"][aim["which"] % n]["milligas"] = (g - 100) * 1000
+    fees, need, size, gas = oracle(final)
+    stats.case(final, True, "fee-field-boundary:%s" % ("at" if 16380 <= fees // max(1, 1) <= 16390 or abs(need // 1000 - 16384) <= 6 else "near"),
+               sample={"fee": fees, "minimum_nanotez": need, "size": size, "gas": gas})
+
+
 def run(h):
+    h.run_given(boundary_cases, _prop_boundary, h.n(25, 1500), shards=16, name="fee-boundary")
     h.run_given(lambda: cases(["ed", "sp", "p2"], 6), _prop, h.n(60, 4000), shards=16, name="fast")
     h.run_given(lambda: cases(["BL"], 6, big=False), _prop, h.n(4, 120), shards=16, name="bls", shrink=False)
     h.stats.extra.pop("margin_mutez_min", None)
